@@ -26,7 +26,7 @@ claim('C02', 'exploration', TECH + ': per-row reference head-flow laws selected 
       INV_NOTE, 'DESIGN.md section 4 (C02)')
 claim('C06', 'exploration', TECH + ': explicit-Euler conservation check over every pair of consecutive solved steps, across pause/persist/restart',
       'The stored volume of every tank (cylinder or volume curve, reference volume function) must change by net inflow x dt between consecutive accepted '
-      'steps, start at init_level, stay within the limits up to ~2 s of flow and not discharge at min / fill at max; restarts are placed at grid points so '
+      'steps, start at init_level, stay within the limits up to ~2 s of flow and not discharge at min / fill at max (several links per tank, some closed, CV pipes, pumps discharging straight into a tank); run/edit/reset/rerun histories; restarts are placed at grid points so '
       'the Euler chain must be continuous across them.',
       INV_NOTE, 'DESIGN.md section 4 (C06)')
 claim('C07', 'exploration', TECH + ': pressure sweeps driven through simulated time, per-row curve check and per-junction monotonicity/continuity over the run history',
@@ -58,7 +58,7 @@ claim('C11', 'exploration', TECH + ': seeded run/reset/copy/reload/failed-run/ab
       INV_NOTE, 'DESIGN.md section 4 (C11)')
 
 claim('C04', 'exploration', TECH + ': history check of seeded control schedules in simulated time against a reference control timeline, with restarts placed next to control instants',
-      'Worlds with 1-6 time controls and time rules on 1-3 targets (AT TIME once or repeating, AT CLOCKTIME daily, rules over SYSTEM TIME / CLOCKTIME with =,>=,<=,>,<, '
+      'Worlds with 1-6 time controls and time rules on 1-3 targets (AT TIME once or repeating, AT CLOCKTIME daily / once / from day first_day, rules over SYSTEM TIME / CLOCKTIME with =,>=,<=,>,<, '
       'AND/OR, ELSE, priorities; start_clocktime on/off the hour; instants on the hydraulic grid, on the rule grid only, off both, at 0, at the duration, one second apart, '
       'around midnight; report ALL or grid) run under the simulator with pause/persist/restart next to the instants, rescued solver faults and evaluator-order perturbation. '
       'At every accepted step the commanded status/setting of every target must equal the reference timeline, and with report ALL every instant at which the reference '
